@@ -681,6 +681,35 @@ class Check:
             out.append({"kind": "correspondence", "signature": "model/impl disagree", "case": case, "detail": d})
         return out
 
+    # failures whose verdict depends on a clock (watchdogs, time-linearity oracles): a loaded machine can trip
+    # them on correct code, so each is re-run alone and kept only if that run fails too ("seen twice")
+    timing_signatures = r"(?i)\bhang\b|watchdog|timeout|cpu time|not linear|deadline|not returning"
+
+    def confirm_timing_failures(self, failures, impl, model, ctx, limit=12):
+        rx = re.compile(self.timing_signatures) if self.timing_signatures else None
+        if rx is None:
+            return failures
+        hung = {f.get("case") for f in failures if f["kind"] in ("oracle", "crash") and rx.search(f["signature"])}
+        verdict, dropped = {}, 0
+        keep = []
+        for f in failures:
+            c = f.get("case")
+            # (the abnormal exit of a case whose own watchdog line is in the list is the same event)
+            if c in hung and f["kind"] in ("oracle", "crash") and (rx.search(f["signature"]) or (f["kind"] == "crash" and "abnormal exit" in f["signature"])):
+                if c not in verdict:
+                    if len(verdict) >= limit:
+                        verdict[c] = True       # too many to re-run: keep (never drop unconfirmed beyond the limit)
+                    else:
+                        verdict[c] = bool(self.eval_one(impl, model, c))
+                if not verdict[c]:
+                    dropped += 1
+                    continue
+            keep.append(f)
+        if dropped:
+            ctx.setdefault("extra_coverage", {})["timing_failures_not_reproduced_when_rerun_alone"] = dropped
+            log("[%s] %d clock-dependent failure(s) did not reproduce when the case was re-run alone: dropped" % (self.prop, dropped))
+        return keep
+
     def shrink_failures(self, failures, impl, model, limit=6, budget_s=90):
         done = set()
         t_end = time.time() + budget_s
@@ -753,6 +782,8 @@ class Check:
                 failures.append({"kind": "oracle", "signature": o["oracle"], "case": o["case"], "detail": o})
             for d in dis:
                 failures.append({"kind": "correspondence", "signature": "model/impl disagree", "case": d["case"], "detail": d})
+        if not build_err and failures and impl and model:
+            failures[:] = self.confirm_timing_failures(failures, impl, model, ctx)
         if not build_err and failures and impl and model and os.environ.get("VERIF_NO_SHRINK") != "1":
             self.shrink_failures(failures, impl, model)
         if not build_err:
